@@ -3,6 +3,7 @@ package checkers
 import (
 	"fmt"
 	"go/ast"
+	"sort"
 
 	"github.com/go-critic/go-critic/linter"
 )
@@ -38,10 +39,18 @@ func (c *dupImportChecker) WalkFile(f *ast.File) {
 		imports[pkg] = append(imports[pkg], importDcl)
 	}
 
+	var dupLists [][]*ast.ImportSpec
 	for _, importList := range imports {
 		if len(importList) == 1 {
 			continue
 		}
+		dupLists = append(dupLists, importList)
+	}
+	// Map iteration order is random: report in source order.
+	sort.Slice(dupLists, func(i, j int) bool {
+		return dupLists[i][0].Pos() < dupLists[j][0].Pos()
+	})
+	for _, importList := range dupLists {
 		c.warn(importList)
 	}
 }
